@@ -20,7 +20,13 @@ RULES = [
     {"id": "r-bar", "language": "js", "rule": {"pattern": "bar($A)"}, "severity": "warning", "message": "bar $A", "fix": "baz($A)"},
     {"id": "r-div", "language": "html", "rule": {"pattern": "<div>$$$A</div>"}, "severity": "hint", "message": "div"},
     {"id": "r-css", "language": "css", "rule": {"kind": "plain_value", "regex": "^red$"}, "severity": "info", "message": "red"},
+    {"id": "r-ts", "language": "typescript", "rule": {"pattern": "foo($A)"}, "severity": "warning", "message": "ts foo $A"},
+    {"id": "r-tsx", "language": "tsx", "rule": {"pattern": "foo($A)"}, "severity": "warning", "message": "tsx foo $A"},
 ]
+# every project has this sgconfig.yml next to r.yml: one extension (.ts) is split between two
+# languages by file name, so the language of a file must not depend on what its worker saw before
+SGCONFIG = b'{"ruleDirs": ["norules"], "languageGlobs": {"tsx": ["*.page.ts"]}}\n'
+
 
 FILES = {
     "a.js": b"foo(1)\nbar(2)\n",              # findings of both rules -> 2 items
@@ -35,6 +41,7 @@ FILES = {
     # the same three kinds of skipped file at other positions of the (sorted) work queue: FIRST
     # and BETWEEN the files with findings — a skip must not affect the files taken after it
     "0.html": b"<script>foo(10)</script>\n",
+    "p.ts": b"foo(12)\n", "q.page.ts": b"foo(13)\n", "r.ts": b"foo(14)\n",
     # bigger than 3 MB but only two lines: NOT oversized (that needs > 3 MB AND > 200 000 lines)
     "big.js": b"foo(11)\nlet s = '" + b"a" * 3_100_000 + b"'\n",
     "0e.js": b"", "0f.js": b"foo(8) \xff\xfe\n", "0g.js": b"foo(9)\n",
@@ -116,7 +123,7 @@ def reference(binary, root, files, faults, style, tag="x", run_mode=None):
                 return _REF_CACHE[key]
         d = os.path.join(root, f"ref_{tag}_" + name.replace(".", "_"))
         os.makedirs(d, exist_ok=True)
-        vlib.write_tree(d, {name: files[name], "r.yml": rules_text()})
+        vlib.write_tree(d, {name: files[name], "r.yml": rules_text(), "sgconfig.yml": SGCONFIG})
         env = {"VERIF_FAULTS": ",".join(faults)}
         if run_mode == "scan-json-U":
             # JSON output together with --update-all: the worker then sends one leading buffer of fix
@@ -153,7 +160,7 @@ def explore_config(ex, files, faults, T, style, bound, update_all=False, idx=0, 
     proj = os.path.join(ex.root, "proj_" + tag)
     os.makedirs(proj, exist_ok=True)
     tree = dict(files)
-    tree["r.yml"] = rules_text().encode()
+    tree["r.yml"] = rules_text().encode(); tree["sgconfig.yml"] = SGCONFIG
     vlib.write_tree(proj, tree)
     case_base = {"files": ({k: (v.decode("latin-1") if len(v) < 10000 else "<%d bytes: %s...>" % (len(v), v[:40].decode("latin-1"))) for k, v in files.items()} if len(files) < 20 else {"<burst>": f"{len(files)} files m%04d.js = foo(i)"}), "faults": sorted(faults), "threads": T, "style": style, "update_all": update_all, "run_mode": run_mode}
     if update_all:
@@ -262,7 +269,7 @@ def supplementary(rep, files, binary_plain, root):
     proj = os.path.join(root, "free")
     os.makedirs(proj, exist_ok=True)
     tree = dict(files)
-    tree["r.yml"] = rules_text().encode()
+    tree["r.yml"] = rules_text().encode(); tree["sgconfig.yml"] = SGCONFIG
     vlib.write_tree(proj, tree)
     base = None
     runs = 0
@@ -293,7 +300,7 @@ def main(argv):
         files = {k: (FILES[k] if v.startswith("<") and k in FILES else v.encode("latin-1")) for k, v in case["files"].items()}
         proj = os.path.join(root, "replay")
         os.makedirs(proj)
-        tree = dict(files); tree["r.yml"] = rules_text().encode()
+        tree = dict(files); tree["r.yml"] = rules_text().encode(); tree["sgconfig.yml"] = SGCONFIG
         vlib.write_tree(proj, tree)
         rm = case.get("run_mode")
         argvv = ["scan", "-r", "r.yml", "-U", "."] if case["update_all"] else ["scan", "-r", "r.yml", f"--json={case['style']}", "-U", "."] if rm == "scan-json-U" else (RUN_ARGV[rm] + [f"--json={case['style']}", "."]) if rm else ["scan", "-r", "r.yml", f"--json={case['style']}", "."]
@@ -316,7 +323,7 @@ def main(argv):
     # determinism self-test: one schedule replayed twice must give identical traces and output
     f3 = {k: FILES[k] for k in ("a.js", "b.js", "c.html")}
     proj0 = os.path.join(root, "selftest"); os.makedirs(proj0)
-    t0 = dict(f3); t0["r.yml"] = rules_text().encode(); vlib.write_tree(proj0, t0)
+    t0 = dict(f3); t0["r.yml"] = rules_text().encode(); t0["sgconfig.yml"] = SGCONFIG; vlib.write_tree(proj0, t0)
     r1 = ex.run_once(proj0, ["scan", "-r", "r.yml", "--json=stream", "."], 2, [0, 1, 1], [], "self")
     r2 = ex.run_once(proj0, ["scan", "-r", "r.yml", "--json=stream", "."], 2, [0, 1, 1], [], "self")
     if (r1[0], r1[1], r1[3]) != (r2[0], r2[1], r2[3]) or not r1[3]:
@@ -358,6 +365,11 @@ def main(argv):
     configs.append((["a.js", "d.js", "b.js", "g.js"], [], 1, "stream", 0, "scan-json-U"))
     configs.append((["a.js", "d.js", "b.js", "g.js"], [], 2, "compact", 2 if thorough else 1, "scan-json-U"))
     configs.append((["a.js", "d.js", "b.js", "g.js"], [], 2, "pretty", 1, "scan-json-U"))
+    # one extension split between two languages by languageGlobs: plain and .page.ts files in both
+    # visiting orders, on one worker (T=1) and on two
+    for fs in (["p.ts", "q.page.ts"], ["q.page.ts", "r.ts"], ["p.ts", "q.page.ts", "r.ts"]):
+        configs.append((fs, [], 1, "stream", 0, False))
+        configs.append((fs, [], 2, "stream", 1, False))
     # a file above 3 MB with few lines is eligible like any other
     configs.append((["a.js", "big.js", "b.js"], [], 1, "stream", 0, False))
     configs.append((["a.js", "big.js", "b.js"], [], 2, "stream", 1 if thorough else 0, False))
